@@ -1,0 +1,5 @@
+//go:build !verif
+
+package boltz
+
+func verifHook(string) error { return nil }
